@@ -69,7 +69,12 @@ Per == /\ Is("period")
                      Check("period.value", (want # Reject /\ Ev.ok) => Ev.secs = want)>>))
        /\ UNCHANGED <<tid, S, k>>
 
-Next == Setup \/ Eof \/ Made \/ Refused \/ Tick \/ Conv \/ T2S \/ Units \/ Per
+\* duration2iso: the produced string is the specification's formatting of the duration
+Fmt == /\ Is("format")
+       /\ Mark(All(<<Check("format.iso", Ev.toks = FormatIso(Ev.secs)),
+                     Check("format.reads_back", IsoSecsD(Ev.toks) = Ev.secs)>>))
+       /\ UNCHANGED <<tid, S, k>>
+Next == Fmt \/ Setup \/ Eof \/ Made \/ Refused \/ Tick \/ Conv \/ T2S \/ Units \/ Per
 Spec == Init /\ [][Next]_vars
 Accepted == TLCGet("stats").diameter - 1 = Len(Tr)
 =============================================================================
